@@ -161,6 +161,12 @@ def hash_pairs(ctx, seed):
     base = dict(name="x:y", label="Y", definition="d")
     yield "Term", "alias_type", data.Term(**base, type_of_term="class"), data.Term.model_validate({**base, "type_of_term": "class"})
     yield "Term", "extra_field", data.Term(**base, extra1="q"), data.Term(**base, extra1="q")
+    # extra attributes are compared as an unordered mapping: insertion order must not matter for the hash
+    ta, tb = data.Term(**base, source="field guide", version="2"), data.Term(**base, version="2", source="field guide")
+    yield "Term", "extras_in_other_order", ta, tb
+    yield "Term", "extras_int_vs_float", data.Term(**base, rank=1), data.Term(**base, rank=1.0)
+    yield "Tag", "term_extras_in_other_order", data.Tag(term=ta, value="v"), data.Tag(term=tb, value="v")
+    yield "Feature", "term_extras_in_other_order", data.Feature(term=ta, value=0.5), data.Feature(term=tb, value=0.5)
     # near misses (may or may not be equal; the check only demands a == b => hash equal)
     yield "Term", "near_label", data.Term(**base), data.Term(name="x:y", label="Y2", definition="d")
     yield "Tag", "near_value", data.Tag(term=t, value="a"), data.Tag(term=t, value="A")
@@ -228,6 +234,21 @@ def run(ctx):
         scores = [rng.choice([0.0, 1.0, rng.random()]) for _ in l]
         ctx.case(("encode_long", len(v)), _spec(v, l, scores))
         judge_encoding(ctx, U, v, l, scores)
+    # a tag that EQUALS a vocabulary tag but was built differently must encode to its index
+    from soundevent import data as _d
+    from soundevent.evaluation import encoding as _E
+
+    base = dict(name="x:y", label="Y", definition="d")
+    va = _d.Tag(term=_d.Term(**base, source="s", version="2"), value="v")
+    vb = _d.Tag(term=_d.Term(**base, version="2", source="s"), value="v")
+    for variant, probe in (("extras_in_other_order", vb), ("deepcopy", copy.deepcopy(va)), ("pickle", _pickled(va))):
+        ctx.case(("encode_equal_tag", variant), {"kind": "encode_equal_tag", "variant": variant})
+        ctx.mon("encoder")
+        if va == probe:
+            enc = _E.create_tag_encoder([U[0], va])
+            if enc.encode(probe) != 1 or _E.classification_encoding([probe], enc) != 1 or list(_E.multilabel_encoding([probe], enc)) != [0, 1]:
+                ctx.violate("encode_iff_equal", f"encode_iff_equal:equal_tag_built_differently:{variant}", observed=enc.encode(probe), expected=1, spec={"kind": "encode_equal_tag", "variant": variant})
+
     # hash pairs
     for i in range(ctx.scale(25, 150)):
         seed = rng.getrandbits(32)
